@@ -150,6 +150,10 @@ def build_corruptions():
             # (`#[into(skip)]` next to a separate `#[into(i64)]` on one field is documented as valid)
             corr("into:skip-and-types", ["Into"], "pub struct S { #[into(skip, i64)] a: i32, b: u8 }", False)
             corr("into:mixed-regular-wrapped", ["Into"], "#[into(i64, owned(i128))] pub struct S(i32);")
+            for w in ("ref", "owned", "ref_mut", "ref(i32)", "ref_mut(i32)"):
+                corr("into:mixed-regular-wrapped", ["Into"], "#[into(i64, %s)] pub struct S(i32);" % w)
+                corr("into:mixed-regular-wrapped", ["Into"], "#[into(%s, i64)] pub struct S(i32);" % w)
+                corr("into:mixed-regular-wrapped", ["Into"], "pub struct S { #[into(i64, %s)] a: i32, b: u8 }" % w)
             corr("into:multiple-skip", ["Into"], "pub struct S { #[into(skip)] #[into(skip)] a: i32, b: u8 }")
             corr("into:tuple-arity", ["Into"], "#[into((i64, i64, i64))] pub struct S(i32, i32);")
             corr("into:tuple-arity", ["Into"], "#[into((i64,))] pub struct S(i32, i32);")
